@@ -461,12 +461,35 @@ def step_harness_sync(ctx):
             if not os.path.exists(dst) or open(dst).read() != data:
                 open(dst, "w").write(data)
     shutil.copy(os.path.join(REPO, "Cargo.lock"), os.path.join(stage, "Cargo.lock"))
-    env = {"CARGO_NET_OFFLINE": "true", "CARGO_TARGET_DIR": os.path.join(CACHE, TARGET + "_sync")}
+    env = scratch_env({"CARGO_NET_OFFLINE": "true", "CARGO_TARGET_DIR": os.path.join(CACHE, TARGET + "_sync")}, TARGET + "_sync")
     rc, out = sh(["cargo", "build", "--offline", "--quiet"], cwd=stage, timeout=3000, env=env)
     if rc != 0:
         ctx.notes.append("the blocking-only harness (mpd_protocol without the async feature) did not build: " + out[-300:].replace("\n", " "))
         return False
     return True
+
+
+def scratch_env(env, target):
+    """Builds against a scratch copy of the repository (VERIF_REPO): every copy has a path of its own, so cargo keeps one set of
+    artefacts of the two crates and of the harness per copy.  No incremental state for them, and what earlier copies left is removed
+    (the caller holds the lock for the whole run)."""
+    if os.path.abspath(REPO) == "/repo":
+        return env
+    env = dict(env)
+    env["CARGO_INCREMENTAL"] = "0"
+    import glob, time
+    now = time.time()
+    root = os.path.join(CACHE, target)
+    for prof in ("debug", "release"):
+        shutil.rmtree(os.path.join(root, prof, "incremental"), ignore_errors=True)
+        for pat in ("deps/*mpd_client-*", "deps/*mpd_protocol-*", "deps/verif_harness*", ".fingerprint/mpd_client-*", ".fingerprint/mpd_protocol-*", ".fingerprint/verif_harness*"):
+            for f in glob.glob(os.path.join(root, prof, pat)):
+                try:
+                    if now - os.path.getmtime(f) > 1800:
+                        shutil.rmtree(f) if os.path.isdir(f) else os.remove(f)
+                except OSError:
+                    pass
+    return env
 
 
 def step_harness(ctx, features=None, target=None, release=False):
@@ -478,7 +501,7 @@ def step_harness(ctx, features=None, target=None, release=False):
         cmd.append("--release")
     if features is not None:
         cmd += ["--no-default-features", "--features", features] if features else ["--no-default-features"]
-    env = {"CARGO_NET_OFFLINE": "true", "CARGO_TARGET_DIR": os.path.join(CACHE, target)}
+    env = scratch_env({"CARGO_NET_OFFLINE": "true", "CARGO_TARGET_DIR": os.path.join(CACHE, target)}, target)
     rc, out = sh(cmd, cwd=HARNESS, timeout=3000, env=env)
     if rc != 0:
         ctx.broken.append(("harness", "cargo build", out[-3000:]))
